@@ -120,6 +120,23 @@ theorem session_remote_put_applied (c : Bitmap.Cfg) (hc : GoodCfg c) (ops : List
   · show AMap.lookup (AMap.insert s.store k r) k = some r
     simp
 
+/-- KF-dist-remote-collision: the guard `applicable` of the theorems above is not vacuous talk — a remote put
+    that names a prefix another subscriber holds (what two nodes produce when each hands out the lowest free
+    unit) is refused by SetAllocation, handleRemoteChange and loadAllocations DROP the refusal, the store keeps
+    both records, and after a restart the holder depends on the enumeration order. -/
+theorem KF_dist_remote_collision_witness :
+    let c : Bitmap.Cfg := { famBits := 32, poolPrefix := 29, plen := 32, base := 0x0a000000 }
+    let r : Rec := { addr := 0x0a000000, plen := 32, epoch := 0 }
+    let s := Session.run (Session.init c) [.alloc 1 false]
+    Session.applicable s 2 r = false ∧
+      Session.get (Session.remotePut s 2 r) 2 = .none ∧
+      AMap.lookup (Session.remotePut s 2 r).store 2 = some r ∧
+      Session.get (Session.restart (Session.remotePut s 2 r) [1, 2]) 1 = .okAddr 0x0a000000 32 ∧
+      Session.get (Session.restart (Session.remotePut s 2 r) [1, 2]) 2 = .none ∧
+      Session.get (Session.restart (Session.remotePut s 2 r) [2, 1]) 2 = .okAddr 0x0a000000 32 ∧
+      Session.get (Session.restart (Session.remotePut s 2 r) [2, 1]) 1 = .none := by
+  decide
+
 /-! non-vacuity: an admissible history with a failing write, a remote put, a restart in reversed order -/
 example : Session.Valid (Session.init { famBits := 32, poolPrefix := 29, plen := 32, base := 0x0a000000 })
     [.alloc 1 false, .alloc 1 true, .alloc 2 true, .remotePut 3 { addr := 0x0a000005, plen := 32, epoch := 0 },
@@ -130,6 +147,53 @@ example : Session.get (Session.run (Session.init { famBits := 32, poolPrefix := 
      .release 1 true, .restart [3, 1]]) 3 = .okAddr 0x0a000005 32 := by decide
 
 end session
+
+/-! ## PoolAllocator (store.go) over a store shared with other pools -/
+section pool
+
+/-- A failing SaveAllocation / RemoveAllocation — injected or the by-IP conflict with another pool's record —
+    leaves allocator and store in agreement: after ANY history of allocate/release with every failure
+    vector and any records of other pools, a subscriber has a record exactly when the allocator holds a
+    prefix for it, and the record is that prefix. -/
+theorem pool_store_failure_agrees (c : Bitmap.Cfg) (hc : GoodCfg c) (ops : List Pool.Op) (k : Nat) :
+    (AMap.lookup (Pool.run (Pool.init c) ops).s.store k).map (fun r => (r.addr, r.plen)) =
+      match Session.get (Pool.run (Pool.init c) ops).s k with
+      | .okAddr a l => some (a, l)
+      | _ => none := by
+  have hI := Pool.pinv_run ops (Pool.init c) (Session.sinv_init c hc.2.2)
+  have := hI.agree k
+  rw [this]
+  unfold Session.get Bitmap.lookup
+  cases AMap.lookup (Pool.run (Pool.init c) ops).s.a.allocated k <;> rfl
+
+/-- Rollback restores: an Allocate that fails on the store leaves every subscriber's holding exactly as it
+    was — in particular it does not take away a prefix the caller already held (the wedge of D21p). -/
+theorem pool_rollback_restores (st : Pool.State) (k : Nat) (f : Bool)
+    (herr : (Pool.alloc st k f).2 = .error) (k' : Nat) :
+    Session.get (Pool.alloc st k f).1.s k' = Session.get st.s k' := by
+  have hkeep := Session.alloc_error_keeps (s := st.s) k (f || Pool.conflictFor st k) herr k'
+  have hcfg : (Pool.alloc st k f).1.s.a.cfg = st.s.a.cfg := Session.step_cfg st.s (.alloc k _)
+  unfold Session.get Bitmap.lookup
+  have h1 : (Pool.alloc st k f).1.s = (Session.alloc st.s k (f || Pool.conflictFor st k)).1 := rfl
+  rw [hcfg, h1, hkeep]
+
+/-- … and the allocator never gives one prefix to two subscribers (the bitmap invariant is kept). -/
+theorem pool_unique (c : Bitmap.Cfg) (hc : GoodCfg c) (ops : List Pool.Op) (k₁ k₂ i : Nat)
+    (h₁ : AMap.lookup (Pool.run (Pool.init c) ops).s.a.allocated k₁ = some i)
+    (h₂ : AMap.lookup (Pool.run (Pool.init c) ops).s.a.allocated k₂ = some i) : k₁ = k₂ := by
+  have hI := (Pool.pinv_run ops (Pool.init c) (Session.sinv_init c hc.2.2)).inv
+  have a := hI.fwd k₁ i h₁
+  have b := hI.fwd k₂ i h₂
+  rw [a] at b; simpa using b
+
+/-! non-vacuity: the wedge scenario of the unfixed code, on the model of the fixed code -/
+def wedge : Pool.State :=
+  Pool.run (Pool.init { famBits := 32, poolPrefix := 30, plen := 32, base := 0x0a000000 })
+    [.alloc 1 false, .alloc 1 true, .alloc 2 false]
+example : Session.get wedge.s 1 = .okAddr 0x0a000000 32 ∧ Session.get wedge.s 2 = .okAddr 0x0a000001 32 := by
+  decide
+
+end pool
 
 /-! ## serialise / restore -/
 section roundtrip
@@ -170,9 +234,9 @@ end roundtrip
 section lease
 open Bng.Dist.Lease
 
-/-- PARTIAL (lease mode): allocate / renew / release with ANY store failure vector (and the lookups) keep
-    memory and store in agreement on who holds which address.  Histories with epoch ticks, restarts or
-    remote puts are excluded: findings KF-lease-store-epoch, D38, D39 below. -/
+/-- PARTIAL (lease mode): allocate / renew / release with ANY store failure vector, remote deletes and the
+    lookups keep memory and store in agreement on who holds which address.  Histories with epoch ticks,
+    restarts or remote puts are excluded: findings KF-lease-store-epoch, D38, D39 below. -/
 theorem lease_store_failure_agrees_partial (c : Epoch.Cfg) (ops : List Lease.Op)
     (hl : ∀ op ∈ ops, Lease.isLocal op = true) (k : Nat) :
     (AMap.lookup (Lease.run (Lease.init c) ops).store k).map (fun r => (r.addr, r.plen)) =
@@ -214,8 +278,24 @@ theorem KF_lease_store_epoch_witness :
       Lease.get (Lease.restart s [1]) 1 = .okAddr 0x0a000001 32 := by
   decide
 
+/-- The interleaving the tick lock (fix d4b6bec) rules out: the store cleanup of an epoch tick takes its Query
+    snapshot, ANOTHER caller re-allocates (fresh lease, fresh record), then the cleanup deletes from the stale
+    snapshot.  Modelled with the pieces of `Lease.tick`: the result is a live lease without a record.  With
+    the whole tick under da.mu, `Lease.tick` is one atomic step and this history does not exist. -/
+theorem tick_race_witness :
+    let s0 := Lease.run (Lease.init cl) [.alloc 1 false, .tick [1] false, .tick [1] false]
+    let a' := (Epoch.advance s0.a).1
+    let snap := snapshot s0.store [1]
+    let s1 := (Lease.alloc { s0 with a := a' } 1 false).1
+    let racy : Lease.State := { s1 with store := Lease.cleanup s1.store a'.epoch snap }
+    Lease.get racy 1 = .okAddr 0x0a000001 32 ∧ AMap.lookup racy.store 1 = none ∧
+      (AMap.lookup (Lease.tick s0 [1] false).1.store 1).isNone = true ∧
+      Lease.get (Lease.alloc (Lease.tick s0 [1] false).1 1 false).1 1 = .okAddr 0x0a000001 32 ∧
+      (AMap.lookup (Lease.alloc (Lease.tick s0 [1] false).1 1 false).1.store 1).isSome = true := by
+  decide
+
 /-! non-vacuity of the partial theorem's hypothesis -/
-example : ∀ op ∈ [Lease.Op.alloc 1 true, .alloc 1 false, .renew 1 false true, .release 1 true, .get 1],
+example : ∀ op ∈ [Lease.Op.alloc 1 true, .alloc 1 false, .renew 1 false true, .release 1 true, .remoteDel 2, .get 1],
     Lease.isLocal op = true := by decide
 
 end lease
